@@ -62,7 +62,9 @@ impl Encoder<Bytes> for Identity {
     type Error = Error;
 
     fn encode(&mut self, item: Bytes, dst: &mut bytes::BytesMut) -> Result<(), Self::Error> {
-        if item.len() > self.payload_len || item.is_empty() {
+        // Only whole frames can be written: the decoder yields exactly `payload_len` bytes,
+        // so a shorter item would be glued to the next one (or never delivered).
+        if item.len() != self.payload_len || item.is_empty() {
             return Err(Error::InvalidData);
         }
 
